@@ -106,6 +106,8 @@ func (w *world) ownVote(r int, t byte) *types.Vote {
 	return nil
 }
 
+type honestFailure string
+
 // commitHonest drives one honest height to its commit at round 0.
 func (w *world) commitHonest() {
 	w.T() // NewHeight -> Propose
@@ -124,7 +126,7 @@ func (w *world) commitHonest() {
 	w.votes(types.VoteTypePrevote, 0, id)
 	w.votes(types.VoteTypePrecommit, 0, id)
 	if w.n.App.Height() != w.h || w.status().LastBlockHeight != w.h {
-		vk.Fatalf("honest height %d did not commit (app %d, status %d)", w.h, w.n.App.Height(), w.status().LastBlockHeight)
+		panic(honestFailure(fmt.Sprintf("honest height %d (proposal by its proposer, then every validator's prevote and precommit for it) did not commit: app height %d, status height %d", w.h, w.n.App.Height(), w.status().LastBlockHeight)))
 	}
 	w.h++
 }
@@ -612,6 +614,7 @@ type result struct {
 	prevoted, precommitted bool
 	committed, applied     bool
 	viol                   [2]string
+	preViol                [2]string // found in the honest scripted prefix, before any corruption was proposed
 	note                   string
 	encodable              bool
 	killed                 bool
@@ -624,10 +627,27 @@ func runCase(f *csnet.Fixture, self int, h uint64, r, pol int, seen bool, cors [
 	var res result
 	w := newWorld(f, self)
 	defer w.n.Close()
-	for w.h < h {
-		w.commitHonest()
+	// the scripted prefix is fully honest: if the node panics in it, or an honest height does not commit, that is a
+	// finding about the node (a correct node aborted or wedged without any Byzantine input), not a harness error
+	reached := false
+	if p, v := vk.Catch(func() {
+		for w.h < h {
+			w.commitHonest()
+		}
+		reached = w.toRound(r, seen)
+	}); p {
+		txt := fmt.Sprint(v)
+		if hf, ok := v.(honestFailure); ok {
+			res.preViol = [2]string{"honest-height-does-not-commit", string(hf)}
+		} else {
+			if len(txt) > 90 {
+				txt = txt[:90]
+			}
+			res.preViol = [2]string{"honest-run-panics-node:" + txt, fmt.Sprintf("fully honest prefix towards height %d round %d (node %d): the node panics at height %d: %v", h, r, self, w.h, v)}
+		}
+		return res
 	}
-	if !w.toRound(r, seen) {
+	if !reached {
 		return res
 	}
 	base := w.proposer(r)
@@ -830,6 +850,9 @@ func main() {
 			if res.viol[0] != "" {
 				r.Violation(res.viol[0], res.viol[1], rep)
 			}
+			if res.preViol[0] != "" {
+				r.Violation(res.preViol[0], res.preViol[1], rep)
+			}
 		}
 		r.Finish()
 	}
@@ -845,6 +868,10 @@ func main() {
 		mu.Lock()
 		defer mu.Unlock()
 		done++
+		if res.preViol[0] != "" {
+			r.Violation(res.preViol[0], res.preViol[1], map[string]interface{}{"height": j.h, "round": j.r, "pol_round": j.pol, "node": j.self, "honest_block_validated_in_earlier_round": j.seen, "corruptions": []string{}})
+			return
+		}
 		if !res.applicable || !res.encodable {
 			return
 		}
